@@ -4,7 +4,12 @@ not consume the caller's hash / XOF object".
 Layering
   * _verify_ed25519 / _verify_ed448: ValueError IFF NOT spec.rfc8032.verify_ok(...) -- two halves of 32 / 57 octets, R decodes,
     S < L, k = le(H(dom || R || A || PH(M))) mod L, [8][S]B == [8]R + [8][k]A over the abstract group of spec.fips186.
-    verify() dispatches on the curve name and the type of msg_or_hash (TypeError iff neither bytes nor the hash class of the curve).
+    verify() dispatches on the curve name and the type of msg_or_hash: TypeError iff it is neither a byte string (bytes, bytearray,
+    memoryview: py3compat.is_bytes) nor an instance of the hash class of the curve; ValueError for a key on any other curve.
+    PH(M) is stated for EVERY object the code lets through: SHA512Hash of any digest size (RFC 8032: SHA-512, digest_size == 64),
+    SHAKE256_XOF at any squeeze position (RFC 8032: SHAKE256(M, 64), position 0).
+  * the two curves are proved in registries specialised to the curve (curve name, ghost id and the literal L are constants there);
+    the dispatchers, import_*, __init__ and new() in the general registry, where the leaf contracts are used as callee contracts.
   * _sign_ed25519 / _sign_ed448: result == spec.rfc8032.sign(...) byte for byte (5.1.6 / 5.2.6), frame EMPTY: the caller's hash
     object is read through digest() (empty frame) resp. copy().read(64) (read() advances the XOF, so dropping copy() breaks the frame).
   * import_public_key / import_private_key / EdDSASigScheme.__init__ / new().
@@ -388,10 +393,6 @@ def units(prop, tier):
 #   ECC.construct, EccKey.__init__): key side, ASSUMED above with their RFC 8032 5.1.2-5.1.3 / 5.2.2-5.2.3 contracts.  The real
 #   decoders do NOT satisfy the assumed `ValueError iff not dec_ok` on non-canonical strings (x = 0 with sign bit 1; Ed448: bits
 #   448..454 of the last octet are ignored) -- reported as a genuine finding, witnesses in the report of this package.
-# NOT PROVED (engine): a dispatcher mutant that calls a leaf OUTSIDE its precondition (e.g. `_verify_ed25519(msg, sig, False)` with a
-#   hash object) ends `undecided` (exit 2), not `violated`: after the failed call_pre obligation the path condition is False and the
-#   engine cannot evaluate the remaining clauses ("spec expression has no value").  Suggested fix: end the path in _apply_bound when
-#   a precondition is refuted.
 #
 # ==== Mutation check (tools/mut.py C04 lib/Crypto/Signature/eddsa.py <old> <new> --only <unit>; exit 1 = VIOLATION on the named obligation)
 #  unit sig.eddsa.verify_ed25519
@@ -415,6 +416,7 @@ def units(prop, tier):
 #   M12 `msg_or_hash.copy().read(64)` -> `msg_or_hash.read(64)` in _sign_ed448                exit 1  _sign_ed448.modifies.obj9.g_pos (C19: signer consumed the caller's XOF)
 #   M13 `r_hash = ... .read(114)` -> `.read(64)` in _sign_ed448                                 exit 2  _sign_ed448.ensures.rfc8032 UNDECIDED on 4 paths (no counter-model with
 #                                                                                                      114-octet strings within the time-out; not discharged either)
+#   M22 `s.to_bytes(57, 'little')` -> `'big'` in _sign_ed448                                    exit 1  _sign_ed448.ensures.rfc8032 (4 paths; ~14 min for the counter-models)
 #  unit sig.eddsa.sign
 #   M14 sign(): `raise TypeError("Private key is needed to sign")` -> `raise ValueError(...)`   exit 1  sign.raises_iff.ValueError.only_if (6 paths)
 #  unit sig.eddsa.import
@@ -425,6 +427,8 @@ def units(prop, tier):
 #                                                                                                      256-octet context: no verdict within 900 s)
 #   M18 __init__: `self._A = key._export_eddsa_public()` -> `self._A = context`                 exit 1  __init__.ensures.A, .ensures.public_point, .raises_iff.ValueError.if
 #   M19 new(): `if mode != 'rfc8032'` -> `if mode == 'rfc8033'`                                 exit 1  new.raises_iff.ValueError.if (4 paths)
-#  wrong-dispatch mutants of verify() (`eddsa_verify_method = self._verify_ed25519` in the Ed448 branch; ph replaced by False): exit 2, see NOT PROVED (engine)
+#  unit sig.eddsa.verify (wrong dispatch)
+#   M20 verify(): `eddsa_verify_method(msg_or_hash, signature, ph)` -> `(..., False)`           exit 1  verify.call_pre.ph_isinstance_msg_or_hash_...
+#   M21 verify(): Ed448 branch `eddsa_verify_method = self._verify_ed448` -> `_verify_ed25519`  exit 1  verify.call_pre.self__key_curve_Ed25519 (4 paths)
 # (violations of mutants are slow to REPORT, 20 .. 800 s per unit: z3 needs seconds to build each counter-model with 64 / 114 octet
 #  strings; the unchanged tree takes 8 s for all 339 obligations.)
